@@ -2,6 +2,8 @@ package gen
 
 import (
 	"go/types"
+	"path/filepath"
+	"strings"
 
 	"verif/checker/internal/absint"
 )
@@ -90,6 +92,12 @@ type Config struct {
 	Capitalizations     []string
 	Package             string
 	Output              string
+	Mappings            []Mapping // per-schema-id package / output / root type
+}
+
+// Mapping is one generator.SchemaMapping.
+type Mapping struct {
+	ID, Package, Output, RootType string
 }
 
 func DefaultConfig() Config {
@@ -114,7 +122,24 @@ func (g *G) NewGenerator(c Config) V {
 		}
 		return nil
 	})
+	var maps []V
+	for _, mp := range c.Mappings {
+		maps = append(maps, g.Val("pkg/generator", "SchemaMapping", map[string]V{
+			"SchemaID": absint.Lit(mp.ID), "PackageName": absint.Lit(mp.Package), "OutputName": absint.Lit(mp.Output), "RootType": absint.Lit(mp.RootType)}))
+	}
+	mappings := g.M.Zero(types.NewSlice(g.Type("pkg/generator", "SchemaMapping")))
+	if len(maps) > 0 {
+		mappings = g.M.NewSliceOf(g.Type("pkg/generator", "SchemaMapping"), maps...)
+	}
+	var loader V = absint.Iface{}
+	if g.Loader != nil {
+		// the module's own CachedLoader in front of the in-memory loader, as NewDefaultCacheLoader does for files
+		cl := g.M.CallFunction(g.fn("pkg/schemas.NewCachedLoader"), []V{g.Loader, &absint.Map{}}, nil)
+		loader = absint.Iface{T: types.NewPointer(g.Type("pkg/schemas", "CachedLoader")), V: cl}
+	}
 	cfg := g.Val("pkg/generator", "Config", map[string]V{
+		"SchemaMappings":      mappings,
+		"Loader":              loader,
 		"ExtraImports":        c.ExtraImports,
 		"OnlyModels":          c.OnlyModels,
 		"MinSizedInts":        c.MinSizedInts,
@@ -157,4 +182,31 @@ func (g *G) Sources(gen V) map[string]absint.Str {
 		}
 	}
 	return out
+}
+
+var stubLoaderType = types.NewNamed(types.NewTypeName(0, nil, "abstractLoader", nil), types.NewStruct(nil, nil), nil)
+
+// StubLoader installs an in-memory schemas.Loader: Load(uri, parent) returns the
+// abstract schema registered under the concrete uri, or an error. Every call is recorded.
+func (g *G) StubLoader(files map[string]V) {
+	obj := &absint.GoObject{Name: "loader", Methods: map[string]func(m *absint.Machine, args []V) V{}}
+	obj.Methods["Load"] = func(m *absint.Machine, args []V) V {
+		uri, ok := args[0].(absint.Str).Concrete()
+		if !ok {
+			panic(&absint.RunError{Kind: "undecided", Msg: "loader called with a symbolic uri"})
+		}
+		parent, _ := args[1].(absint.Str).Concrete()
+		g.Loads = append(g.Loads, parent+" -> "+uri)
+		key := filepath.Join(filepath.Dir(parent), strings.TrimPrefix(uri, "./"))
+		if s, ok := files[key]; ok {
+			return absint.Tuple{s, absint.Iface{}}
+		}
+		return absint.Tuple{absint.Ptr{}, absint.Iface{T: stubLoaderType, V: absint.ErrVal{Msg: absint.Lit("cannot load " + uri)}}}
+	}
+	g.Loader = absint.Iface{T: stubLoaderType, V: obj}
+}
+
+// DoFileAbstract mimics Generator.DoFile for an in-memory file: loader.Load(name, "") then addFile.
+func (g *G) DoFileAbstract(gen V, name string, schema V) V {
+	return g.AddFile(gen, name, schema)
 }
